@@ -113,7 +113,7 @@ def main():
             "guard": "--cfg chialisp_verif",
             "enable": "harness/.cargo/config.toml passes RUSTFLAGS '--cfg chialisp_verif' to every build of the cvh harness crate (path dependency on /repo)",
             "baseline_off_cmd": "cd /repo && RUSTUP_TOOLCHAIN=stable-x86_64-unknown-linux-gnu CARGO_NET_OFFLINE=true cargo test --workspace --no-fail-fast --offline",
-            "source_commits": [],
+            "source_commits": ["51db9dee1a63b05cabf878093b4794cebe1975ad"],
             "add_only": True,
         },
         "engines": [
